@@ -826,10 +826,16 @@ def check_layout(ctx, base, safe, j, stubs, outside, parsed, files):
                         return True
                 return False
             suffix_moved = [m for m in moved_modules if not exact(m)]
+            # the package re-exports a MODULE named X (its stub is moved up into the package directory) and also a
+            # declaration named X of another module: module stub and re-export stub share <package>/X.sdsstub
+            reexport_here = [s2 for s2 in stubs if s2["pkg"] and s2["name"] == s["name"]
+                             and "/".join([x for x in s2["dir"].split("/") if x not in ("", ".")][:-1]) == pkg_id]
+            module_and_declaration = bool(here) and bool(reexport_here) and not suffix_moved and len(same) <= 1
             ctx.oracle_failure("C10", f"two different stub texts written to {p!r}",
                                {**base, "path": p, "names": [s["name"]], "aliased_reexport": aliased,
                                 "same_name_reexports": len(same) > 1, "declarations": same,
                                 "module_moved_by_name_suffix": bool(suffix_moved) and len(same) <= 1,
+                                "module_and_declaration_same_name": module_and_declaration,
                                 "moved_modules": suffix_moved})
         seen[p] = s["text"]
     for cls in outside:
